@@ -17,6 +17,10 @@ CHECKS = {
     technique='SMT queries over a whole-return model composed from path-exhaustive symbolic summaries of the real line definitions (z3: gate affirmative and consulted and solved must be unsat), witnesses replayed on the real Solver',
     text='For every gate input of oracle/gates.json (62-64 per year) and two arithmetic limit gates, z3 is asked whether some input assignment makes an evaluated line consult the gate with an affirmative answer (or exceed the limit) while the whole return still solves; unsat = impossible for every input inside the bound (K copies per input form, S in total, amounts <= 1e8 in whole cents, symbolic filing status). Each gate has a reachability twin (gate negative must be satisfiable). The model is the composition of the real line functions executed symbolically; it is validated differentially against the real Solver, and every sat witness is replayed on the uninstrumented code.',
     design='4 C09', note=TB + '; oracle/gates.json (generated from the pinned tree, reviewed) is the specification of the unsupported situations'),
+ 'C15': dict(
+    technique='SMT queries over a whole-return model composed from path-exhaustive symbolic summaries of the real line definitions (z3: solved and not balance / solved and line < 0 must be unsat for non-negative inputs), witnesses replayed on the real Solver',
+    text='For every year z3 is asked for a solved return (inputs >= 0, whole cents, symbolic filing status, K copies per input form / S in total) in which 34-37 != 33-24, both 34 and 37 are positive, 35a+36 != 34, or a line that the forms define as non-negative (oracle/nonneg.json, ~60 lines) is negative; unsat = impossible inside the bound. figure_tax is replaced by the rate-schedule term C07 proves it equal to, rounding by the banded model (identity on operands already on the cent grid). Witnesses are replayed on the uninstrumented Solver; reachability twins guard against vacuity. NC balance only in the thorough tier.',
+    design='4 C15', note=TB + '; oracle/nonneg.json lists the lines the forms define as non-negative'),
  'C07': dict(
     technique='bounded symbolic execution of the real figure_tax on a symbolic real income (proxy objects through the real bytecode, z3 decides path feasibility) + per-path SMT equivalence with the statutory rate schedule',
     text='Every path of the real figure_tax/figure_tax_table/figure_tax_worksheet (one per table row and worksheet row, for each year and each of the 5 statuses) is enumerated by the symbolic executor; for each, z3 proves value(x) == schedule(x) for every real x on that path (unsat of the negation), that no feasible x falls through, and monotonicity across adjacent pieces. Holds for all real x in [0,1e12]; float rounding of the worksheet kernel is bounded by an NRA lemma under the IEEE standard model. Witnesses are replayed on the uninstrumented code before being reported.',
